@@ -10,7 +10,7 @@
    The statements WITHOUT that restriction are false of the model and of the code: see the
    _refuted theorems (each witness is replayed on the real store by the harness corpus). *)
 From Coq Require Import List ZArith NArith Bool Sorting.Sorted.
-From SopVerif Require Import Vector VectorProofs VectorRefineProofs VectorQueryProofs.
+From SopVerif Require Import Gen.VectorConsts Vector VectorProofs VectorRefineProofs VectorQueryProofs Corr.C33.
 Import ListNotations.
 Local Open Scope Z_scope.
 
@@ -104,6 +104,13 @@ Theorem C33_query_at_most_k : forall buf s probes sim k flt,
 Proof. exact query_length. Qed.
 Print Assumptions C33_query_at_most_k.
 
+(* the shapes of the source the model was transcribed from, as re-read by the translator on this run:
+   Optimize leaves TempVectors to Consolidate (phase 3b is dead code), Consolidate handles 100 entries per call *)
+Theorem C33_translated_constants :
+  vector_phase3_migrates_temp = false /\ consolidate_batch = 100%nat /\ vector_query_nprobe = 2%nat.
+Proof. repeat split; reflexivity. Qed.
+Print Assumptions C33_translated_constants.
+
 (* ------------------------------------------------------------------ refutations of the unrestricted statements *)
 
 (* staged ingestion (EnableIngestionBuffer): a staged item deleted before Optimize is live again afterwards *)
@@ -156,4 +163,15 @@ Example C33_nonvacuous :
   /\ live_ids (run Z.eqb init sample_ops) = [0%N; 1%N]
   /\ query false (run Z.eqb init sample_ops) [1; 3] (fun v => nth 1 v 0) 5 (fun p => N.even p) = [(1%N, 2)]
   /\ query false (run Z.eqb init sample_ops) [1; 3] (fun v => nth 1 v 0) 5 (fun _ => true) = [(1%N, 2); (0%N, 0)].
+Proof. vm_compute. repeat split; reflexivity. Qed.
+
+(* the correspondence checker accepts the model's own answer (so a mismatch is never an artefact of the checker)
+   and rejects a hit list that skips the best candidate *)
+Example C33_checker_sane :
+  c33_check (map EOp sample_ops ++
+     [EGet false 1%N (get false (run close_f32 init sample_ops) 1%N);
+      ELive (live_ids (run close_f32 init sample_ops));
+      EQuery false [1; 3] [([2; 2], 9); ([3; 0], 4)] 5 (0%N, 0%N) [(1%N, 9); (0%N, 4)]]) = true
+  /\ c33_check (map EOp sample_ops ++ [EQuery false [1; 3] [([2; 2], 9); ([3; 0], 4)] 1 (0%N, 0%N) [(0%N, 4)]]) = false
+  /\ c33_check (map EOp sample_ops ++ [EGet false 2%N (Some ([1; 1], 3%N, 3))]) = false.
 Proof. vm_compute. repeat split; reflexivity. Qed.
